@@ -28,6 +28,7 @@ import (
 // C17Batch is the mutation applied between two consecutive calls of the iteration (or, in Pre,
 // before the first call).
 type C17Batch struct {
+	Skip     int  `json:"skip"`      // calls of the iteration made without any mutation before this batch is applied
 	Ins      int  `json:"ins"`       // new volatile elements inserted (capped so that live <= c17MaxLive)
 	DelPm    int  `json:"del_pm"`    // per-mille of the currently live volatile elements that is deleted
 	DelSel   int  `json:"del_sel"`   // which ones: 0 oldest first, 1 newest first, 2 every other one first
@@ -82,6 +83,7 @@ var c17KeyTypes = []string{"string", "hash", "set", "list"}
 // that the table oscillates while the iteration is under way; 2 "large" crosses many doublings.
 func c17Batch(t *rapid.T, regime int) C17Batch {
 	b := C17Batch{}
+	b.Skip = pick(t, "skip", 0, 0, 0, 0, 0, 0, 0, 1, 1, 2, 3, 8, 25)
 	maxIns := [3]int{12, 40, 300}[regime]
 	if rapid.IntRange(0, 3).Draw(t, "insKind") != 0 {
 		b.Ins = rapid.IntRange(0, maxIns).Draw(t, "ins")
@@ -101,7 +103,7 @@ func c17Batch(t *rapid.T, regime int) C17Batch {
 	}
 	switch regime {
 	case 0:
-		b.ChurnRem = pick(t, "churn", 0, 0, 10, 40, 100, 300, 700, 1500)
+		b.ChurnRem = pick(t, "churn", 0, 40, 100, 300, 700, 1500, 3000)
 	case 1:
 		b.ChurnRem = pick(t, "churn", 0, 0, 20, 80, 300, 1200, 2500, 5000)
 	default:
@@ -154,7 +156,10 @@ func c17Gen(t *rapid.T) C17Case {
 	for i := 0; i < nb; i++ {
 		c.Batches = append(c.Batches, c17Batch(t, regime))
 	}
-	// TEMP-EXCLUDE hooks would go here (none needed so far)
+	if len(c.Batches) > 0 {
+		c.Batches[0].Skip %= 2 // start mutating early; later batches are spread over the iteration by Skip
+	}
+	// no TEMP-EXCLUDE predicate is needed: no C17 defect is open
 	return c
 }
 
@@ -362,7 +367,11 @@ func (w *c17World) put(names []string, exist bool) {
 			v := w.value(k)
 			switch c17TypeOf(k) {
 			case "string":
-				w.p.add(-1, "SET", k, v)
+				if len(k)%2 == 0 {
+					w.p.add(-1, "SET", k, v, "PX", "99999999") // a deadline far in the future changes nothing
+				} else {
+					w.p.add(-1, "SET", k, v)
+				}
 			case "hash":
 				if exist {
 					w.p.add(0, "HSET", k, "f", v)
@@ -694,7 +703,7 @@ func c17Run(c C17Case, st *kit.Stats) error {
 	returned := map[string]*seen{}
 	total := 0
 	cursor := "0"
-	calls, applied, sinceStop, nFinal := 0, 0, 0, -1
+	calls, applied, quiet, sinceStop, nFinal := 0, 0, 0, 0, -1
 	var trace []c17Call
 	for {
 		argv := c.scanArgv(cursor)
@@ -741,10 +750,15 @@ func c17Run(c C17Case, st *kit.Stats) error {
 				c17HardCap, sinceStop, len(w.live), c17Trace(trace))
 		}
 		if applied < len(c.Batches) {
-			if err := w.apply(c.Batches[applied], c.Stable); err != nil {
-				return err
+			if quiet < c.Batches[applied].Skip {
+				quiet++
+			} else {
+				if err := w.apply(c.Batches[applied], c.Stable); err != nil {
+					return err
+				}
+				applied++
+				quiet = 0
 			}
-			applied++
 		} else {
 			if nFinal < 0 {
 				nFinal = len(w.live)
